@@ -125,6 +125,17 @@ func c08RawURLs(c *Ctx, td *tsrun.Dir, sc *c08Schema) error {
 				append(append([][2]string{}, shopH...), [2]string{"X-Count", "1"}))
 		}
 	}
+	// a query-annotated field of a body verb: in the body (what the generated clients send), in the URL, in both
+	for _, v := range []struct{ class, query, body, want string }{
+		{"query_on_body_verb:body_only", "", `{"page":3,"title":"t"}`, `{"org":"o","userId":"42","page":3,"title":"t"}`},
+		{"query_on_body_verb:url_only", "?page=5", `{"title":"t"}`, `{"org":"o","userId":"42","page":5,"title":"t"}`},
+		{"query_on_body_verb:url_and_body", "?page=5", `{"page":3,"title":"t"}`, `{"org":"o","userId":"42","page":5,"title":"t"}`},
+	} {
+		add(&c08rCase{rpc: "Shop.AddUser", method: "POST", target: "/api/v1/orgs/o/42/users" + v.query, body: v.body, class: v.class, reqType: "shop.v1.AddUserReq",
+			want: v.want, tpl: lits("api", "v1", "orgs", "{org}", "{user_id}", "users"),
+			fields: []any{fieldSpec("org", "org", true, "string"), fieldSpec("user_id", "user_id", true, "int64"), fieldSpec("page", "page", false, "number")}},
+			append(append([][2]string{}, shopH...), [2]string{"Api-Key", "7"}))
+	}
 	// absent parameters: the kinds' defaults
 	add(&c08rCase{rpc: "Shop.Search", method: "GET", target: "/api/v1/search?q=x&limit=1&flag=true&ratio=2&tenant_name=t&cursor=3&big=4", class: "query:get:all_present", reqType: "shop.v1.SearchReq",
 		want: `{"q":"x","limit":1,"cursor":"3","flag":true,"ratio":2,"tenantName":"t","big":"4"}`, tpl: lits("api", "v1", "search"),
@@ -223,10 +234,25 @@ func c08RawURLs(c *Ctx, td *tsrun.Dir, sc *c08Schema) error {
 					why = d
 				}
 			}
+			// Go: path variables win over the body unless the regenerated order still has the body step last;
+			// a query parameter present in the URL is bound for every verb (model: go_query)
 			fromBody := k.model["go_url_fields_from_body"] == true
 			goPredOK := !fromBody || k.class == "path:post:body_repeats_url" || k.class == "path:patch:body_repeats_url"
 			if why == "" && goPredOK != goOK {
 				why = fmt.Sprintf("the Go handler saw the URL's values=%v, the model says %v (%s)", goOK, goPredOK, goWhy)
+			}
+			if why == "" && jsonInt(k.goOut["called"]) == 1 {
+				why = c08GoQueryDiffers(k.model["go_query"], mapOf(k.goOut["seen"]))
+			}
+			// TS: a body-verb route takes query-annotated fields from the body only
+			if why == "" && n >= 1 && k.model["ts_reads_query"] != true && strings.HasPrefix(k.class, "query_on_body_verb:") {
+				var bm map[string]any
+				d := json.NewDecoder(strings.NewReader(k.body))
+				d.UseNumber()
+				_ = d.Decode(&bm)
+				if canon(mapOf(arg)["page"]) != canon(bm["page"]) {
+					why = fmt.Sprintf("the TS handler's page is %s, the model says the body's %s", canon(mapOf(arg)["page"]), canon(bm["page"]))
+				}
 			}
 			if why != "" {
 				res.Corr("raw_url", tag+": "+why, replay)
@@ -236,6 +262,12 @@ func c08RawURLs(c *Ctx, td *tsrun.Dir, sc *c08Schema) error {
 			}
 		}
 		// oracle
+		if !tsOK && goOK && strings.HasPrefix(k.class, "query_on_body_verb:") {
+			key := "servers_differ:query_parameter_on_body_verb"
+			res.Count("divergence:" + key)
+			res.Divergence(key, tag+": the Go handler sees the URL's value, "+tsWhy, implAgrees, replay)
+			continue
+		}
 		if !tsOK {
 			key := "ts_server_url_value:" + k.class
 			if k.class == "query:get:absent_64bit" {
@@ -308,3 +340,35 @@ func sameNumberText(a, b string) bool {
 }
 
 var _ = gen.PJ
+
+// c08GoQueryDiffers: every query parameter the model says Go's url.ParseQuery finds in the URL
+// is the value the Go handler saw for that field.
+func c08GoQueryDiffers(goQuery any, seen map[string]any) string {
+	for _, e := range asList(goQuery) {
+		p := asList(e)
+		if len(p) != 2 {
+			continue
+		}
+		name, _ := bytesToString(p[0])
+		text, ok := bytesToString(p[1])
+		if !ok {
+			continue
+		}
+		jn := jsonNameOf(name)
+		same := false
+		switch v := seen[jn].(type) {
+		case nil:
+			same = text == "" || text == "0" || text == "false" || sameNumberText(text, "0")
+		case string:
+			same = v == text
+		case json.Number:
+			same = sameNumberText(v.String(), text)
+		case bool:
+			same = (text == "true") == v
+		}
+		if !same {
+			return fmt.Sprintf("the Go handler's %s is %s, the model says the URL's %q", jn, canon(seen[jn]), text)
+		}
+	}
+	return ""
+}
